@@ -13,20 +13,22 @@
 //!        query = g<get_attribute: hex | - (empty) | N (None)>h<has_attribute 0|1>
 //!        with an edit script each record continues `:A:<edit result[,..]>:<tag_name>:<tag_name_preserve_case>:<attrs>:<queries>`
 //!          edit result = o | eE | eF<ch hex> (AttributeNameError) | tE | tI | tF<ch hex> (TagNameError)
-//!        strings are printed as the hex of their windows-1252 bytes; `B` when the underlying source bytes
-//!        begin with a byte-order mark (the read accessors sniff BOMs: `Bytes::as_string`, base/bytes.rs:114).
+//!        strings are printed as the hex of their windows-1252 bytes (the read accessors decode without BOM
+//!        handling since the repair of the BOM-sniffing finding, so this is exact for every byte string).
 //!
 //! Oracle (independent of the Lean model): a WHATWG-state attribute parser written here, cross-checked
 //! against html5ever's tokenizer (tag token) and tree builder (namespace), compared with what the
 //! handler observed for the case's tag. ` ||ORACLE:C16:<tag> …`:
-//!   F8-lookup-rejected-name         get/has_attribute miss an attribute that attributes() lists because
-//!                                   the QUERY is validated with the setter's reject list
+//!   F8-lookup-rejected-name         (REPAIRED finding; a violation if it shows up) get/has_attribute miss, or
+//!                                   remove_attribute leaves, an attribute that attributes() lists because the
+//!                                   name is validated with the setter's reject list
 //!   F9-integration-point-namespace  namespace_uri of an HTML integration point element (svg desc/title/
 //!                                   foreignObject, math mi/mo/mn/ms/mtext, annotation-xml with an HTML encoding)
 //!                                   is XHTML; html5ever: SVG/MathML
 //!   edit-read                       a read after the edit script differs from the list algebra (set: first match replaced
 //!                                   or appended; remove: every match gone; rename: new name) applied to the first reads
-//!   bom-sniffing-read-accessor      a name/value beginning with a BOM is decoded as UTF-8/UTF-16
+//!   bom-sniffing-read-accessor      (REPAIRED finding; a violation if it shows up) a name/value beginning with a BOM is
+//!                                   decoded as UTF-8/UTF-16
 //!   foreign-root-inside-foreign-namespace  `<math><svg>` reports SVG (html5ever: MathML) and vice versa (pkg-simthm's finding)
 //!   anything else is a distinct tag (name, attrs, lookup, self-closing, content, namespace, location, count).
 use crate::util::*;
@@ -335,11 +337,8 @@ fn ns_num(uri: &str) -> u8 {
     }
 }
 
-fn show(s: &str, src: Option<&[u8]>) -> String {
-    match src {
-        Some(b) if has_bom(b) => "B".into(),
-        _ => hex_or_dash(&enc(s)),
-    }
+fn show(s: &str, _src: Option<&[u8]>) -> String {
+    hex_or_dash(&enc(s))
 }
 
 pub fn run(line: &str) -> String {
@@ -706,7 +705,7 @@ pub fn run(line: &str) -> String {
         let mut name_pc: Vec<u8> = enc(&e.name_pc);
         let mut list: Vec<(Vec<u8>, Vec<u8>, bool)> = e.attrs.iter().map(|x| (enc(&x.name_pc), enc(&x.value), false)).collect();
         let mut want_res: Vec<String> = vec![];
-        let mut f8 = false;
+        let mut f8_shape = false; // a remove / lookup of a listed name that the setter's validator rejects
         for ed in &edits {
             match ed {
                 Edit::Set(n, v) => {
@@ -729,14 +728,11 @@ pub fn run(line: &str) -> String {
                 Edit::Rm(n) => {
                     let ln = lower(n);
                     want_res.push("o".into());
-                    if rejected_attr_name(&ln) {
-                        // the documented behaviour would remove it; the validator of the setter refuses the name (F8)
-                        if list.iter().any(|x| lower(&x.0) == ln) {
-                            f8 = true;
-                        }
-                    } else {
-                        list.retain(|x| lower(&x.0) != ln);
+                    // "Removes an attribute with the name if it is present": every name attributes() can list
+                    if rejected_attr_name(&ln) && list.iter().any(|x| lower(&x.0) == ln) {
+                        f8_shape = true;
                     }
+                    list.retain(|x| lower(&x.0) != ln);
                 }
                 Edit::Rename(n) => {
                     if n.is_empty() {
@@ -752,10 +748,8 @@ pub fn run(line: &str) -> String {
                 }
             }
         }
-        let bom = list.iter().any(|x| has_bom(&x.0) || has_bom(&x.1));
-        if bom {
-            continue; // BOM-sniffing accessors: the first reads are not the bytes (separate finding)
-        }
+        let bom = e.attrs.iter().any(|x| slice(x.name_loc).is_some_and(has_bom) || slice(x.value_loc).is_some_and(has_bom))
+            || list.iter().any(|x| has_bom(&x.0) || has_bom(&x.1));
         if a.results != want_res {
             flag("edit-read", format!("edit results {:?} expected {:?}", a.results, want_res));
         }
@@ -766,27 +760,30 @@ pub fn run(line: &str) -> String {
             a.attrs.iter().map(|x| (enc(&x.name), enc(&x.name_pc), enc(&x.value), x.name_loc.is_none() || x.value_loc.is_none())).collect();
         let want: Vec<(Vec<u8>, Vec<u8>, Vec<u8>, bool)> = list.iter().map(|x| (lower(&x.0), x.0.clone(), x.1.clone(), x.2)).collect();
         if got != want {
-            flag("edit-read", format!("attributes() after edits {:?} expected {:?}", got, want));
+            let tag = if bom { "bom-sniffing-read-accessor" } else if f8_shape { "F8-lookup-rejected-name" } else { "edit-read" };
+            flag(tag, format!("attributes() after edits {:?} expected {:?}", got, want));
         }
         for (q, (g, h)) in queries.iter().zip(a.queries.iter()) {
             let lq = lower(q);
             let hit = list.iter().find(|x| lower(&x.0) == lq);
             let want = hit.map(|x| dec(&x.1));
             if *g != want || *h != want.is_some() {
-                if rejected_attr_name(&lq) && want.is_some() && g.is_none() && !*h {
-                    f8 = true;
+                let tag = if rejected_attr_name(&lq) && want.is_some() && g.is_none() && !*h {
+                    "F8-lookup-rejected-name"
+                } else if bom {
+                    "bom-sniffing-read-accessor"
+                } else if f8_shape {
+                    "F8-lookup-rejected-name"
                 } else {
-                    flag("edit-read", format!("after edits get_attribute({:?}) = {:?}/{} expected {:?}", dec(q), g, h, want));
-                }
+                    "edit-read"
+                };
+                flag(tag, format!("after edits get_attribute({:?}) = {:?}/{} expected {:?}", dec(q), g, h, want));
             }
-        }
-        if f8 {
-            flag("F8-lookup-rejected-name", "after edits: a name the setter's validator rejects is neither found nor removed although attributes() lists it".into());
         }
     }
     let mut out = obs;
-    // one flag per line: an unexpected one wins over the known findings
-    let known = |f: &String| f.contains(":F8-") || f.contains(":F9-") || f.contains(":bom-sniffing") || f.contains(":foreign-root-inside");
+    // one flag per line: an unexpected one wins over the known findings (F8 and BOM sniffing were repaired: violations)
+    let known = |f: &String| f.contains(":F9-") || f.contains(":foreign-root-inside");
     if let Some(fl) = flags.iter().find(|f| !known(f)).or(flags.first()) {
         out.push_str(fl);
     }
